@@ -10,6 +10,7 @@ mod rsx;
 mod mc_props;
 mod mcx;
 mod oracle;
+mod pipe;
 mod states;
 mod sym;
 
